@@ -84,3 +84,9 @@ EDITS += [
     {"id": "observations-filtered-by-none-test", "expect": "silent", "file": P, "occurrence": 0,
      "old": "[row[0] for row in cursor.fetchall()]", "new": "[row[0] for row in cursor.fetchall() if row[0] is not None]"},
 ]
+
+# round 9 (a generalisation that is almost right)
+EDITS += [
+    {'id': 'r9-note-line-after-marker', 'expect': 'fire', 'rule': 'C19.O6', 'file': 'spowtd/simulate_rise.py', 'old': "        outfile.write('# Rise curve simulation vector\\n')\n", 'new': "        outfile.write('# Rise curve simulation vector\\n')\n        outfile.write('# NOTE: values in mm\\n')\n"},
+    {'id': 'r9-note-line-before-marker', 'expect': 'silent', 'file': 'spowtd/simulate_rise.py', 'old': "        outfile.write('# Rise curve simulation vector\\n')\n", 'new': "        outfile.write('# NOTE: values in mm\\n')\n        outfile.write('# Rise curve simulation vector\\n')\n"},
+]
